@@ -45,19 +45,20 @@ SIG_TIME0 = 'C11 / primary block changed / received creation time 0 (_apply_prim
 SIG_LIFE0 = 'C11 / primary block changed / received lifetime 0 (_apply_primary substitutes 3600000)'
 SIG_EID = 'C11 / primary block changed / dtn EID with ? or # in a primary block without CRC (text conversion truncates it)'
 SIG_EID_ADMIN = 'C11 / payload changed / forwarded status report whose subject EID has ? or # (re-encoded truncated)'
-SIG_PREV2 = 'C11 / previous-node count / two or more Previous Node blocks received (removal while iterating skips every second one)'
-SIG_AGE2 = 'C11 / bundle-age count / two or more Bundle Age blocks received (removal while iterating skips every second one)'
+# fixed in /repo (ed76b97, 1355258; listed as status=fixed in known_findings.json): a tree that shows them again gets a VIOLATION
+SIG_MULTI = 'C11 / two or more received previous-node or age blocks: every second one kept'
+SIG_PREV2 = SIG_MULTI
+SIG_AGE2 = SIG_MULTI
 SIG_PREVJUNK = 'C11 / previous-node count / received type-6 block whose data does not dissect stays next to the new one'
 SIG_AGEJUNK = 'C11 / bundle-age count / received type-7 block whose data does not dissect stays next to the new one'
 SIG_AGENEG = 'C11 / bundle-age value / creation time ahead of the local clock (age encoded as a negative integer)'
 SIG_PAYPOS = 'C11 / payload position / received payload block not last or not numbered 1 is forwarded as it came'
-SIG_AGE_TIME0 = 'C11 / bundle-age value / received creation time 0: age block dropped'
+SIG_STICKY = 'C11 / block number of added previous-node/age block sticks across bundles (class-level overloaded_fields)'
 # Genuine deviations of the current tree found by this check's oracle, shown to the coordinator with their
 # witnesses (harness/corpus/C11_*.json), awaiting a decision (fix: commit or known_findings.json).  While a
 # signature is listed here and not in known_findings.json the failure is printed as PENDING-FINDING and does not
 # fail the run; once listed there it goes through chk.fail() and prints KNOWN-FINDING.
-PENDING_FINDINGS = [SIG_TIME0, SIG_LIFE0, SIG_EID, SIG_EID_ADMIN, SIG_PREV2, SIG_AGE2, SIG_PREVJUNK, SIG_AGEJUNK,
-                    SIG_AGENEG, SIG_PAYPOS, SIG_AGE_TIME0]
+PENDING_FINDINGS = [SIG_TIME0, SIG_LIFE0, SIG_EID, SIG_EID_ADMIN, SIG_PREVJUNK, SIG_AGEJUNK, SIG_AGENEG, SIG_PAYPOS]
 
 NODES = ['dtn://me/', 'dtn://node-7/', 'ipn:9.0', 'ipn:4.1', 'dtn://n/svc']
 NODE_UNSTABLE = 'dtn://me'                      # the text conversion turns it into dtn://me/
@@ -473,19 +474,20 @@ def oracle(case, idx, ent):
                         ('crc_type', spec['crc_type'])):
         if pri[key] != want or type(pri[key]) is not type(want):
             diffs.append('%s %r -> %r' % (key, want, pri[key]))
-    if diffs:
-        keys = set(text.split(' ')[0] for text in diffs)
-        pend = None
-        if keys <= {'time', 'seq'} and 'time0' in cls:
+    groups = {}
+    for text in diffs:
+        key = text.split(' ')[0]
+        if key in ('time', 'seq') and 'time0' in cls:
             pend = SIG_TIME0
-        elif keys == {'lifetime'} and 'life0' in cls:
+        elif key == 'lifetime' and 'life0' in cls:
             pend = SIG_LIFE0
-        elif keys <= {'dest', 'src', 'report_to'} and 'eid-query' in cls and spec['crc_type'] == 0:
+        elif key in ('dest', 'src', 'report_to') and spec['crc_type'] == 0 and ('?' in spec[key] or '#' in spec[key]):
             pend = SIG_EID
-        if pend is None and keys <= {'time', 'seq', 'lifetime'} and {'time0', 'life0'} <= cls:
-            pend = SIG_TIME0
-            bad.append((SIG_LIFE0, 'primary: ' + '; '.join(diffs)))
-        add('primary block changed', '; '.join(diffs), pend)
+        else:
+            pend = None
+        groups.setdefault(pend, []).append(text)
+    for (pend, texts) in sorted(groups.items(), key=lambda ent: ent[0] or ''):
+        add('primary block changed', '; '.join(texts), pend)
     # --- payload
     rx_pay = [blk for blk in spec['blocks'] if blk['type'] == 1]
     tx_pay = [blk for blk in blocks if blk['type'] == 1]
@@ -597,7 +599,7 @@ def evaluate(chk, cases, pending, count=True, label='gen'):
         model_err = str(err)[:600]
     disagree = []
     fails = 0
-    flag_names = ['fwd_in', 'eids_stable', 'payload_stable', 'prev_le1', 'age_le1', 'payload_last_num1', 'time!=0', 'lifetime!=0', 'creation<=now']
+    flag_names = ['fwd_in', 'eids_stable', 'payload_stable', 'prev_parse', 'age_parse', 'payload_last_num1', 'time!=0', 'lifetime!=0', 'creation<=now']
     for (cidx, (case, obs)) in enumerate(zip(cases, impl)):
         want = canon_impl(obs)
         got = canon_model(model[cidx]) if model is not None else None
@@ -627,6 +629,13 @@ def evaluate(chk, cases, pending, count=True, label='gen'):
                 report(chk, pending, 'C11 / harness / unexpected agent reaction', 'actions %r escaped %r recv_exc %r stage %s' % (
                     ent['actions'], ent['escaped'], ent['recv_exc'], ent['stage']), dict(kind='case', case=strip_case(case), input=idx))
                 fails += 1
+            if ent['code'] == 4 and not (cls & {'dupnum'}) and 'hop-empty' not in (item.get('tags') or []):
+                # routed "forward", transmit route and CL present, nothing handed to the CL
+                fails += 1
+                sig = SIG_STICKY if idx > 0 else 'C11 / not transmitted / first bundle of the process, class {%s}' % ','.join(sorted(cls))
+                report(chk, pending, sig, 'input %d of the case (node %s): bundle routed forward is not transmitted (actions %r); block numbers received %r' % (
+                    idx, case['node'], ent['actions'], [blk['num'] for blk in item['spec']['blocks']]),
+                    dict(kind='case', case=strip_case(case), input=idx))
             if ent['code'] == 5:
                 for (sig, what) in oracle(case, idx, ent):
                     fails += 1
